@@ -151,7 +151,10 @@ ExtractRT == /\ phase = "injected" /\ phase' = "done"
              /\ res' = Outcome(car)
              /\ UNCHANGED <<sc, car, devUsed>>
 
-Mut(d) == /\ phase = "carrier"
+\* the bound on mutated dimensions (the same bound is stated once more as CONSTRAINT Budget)
+Room == /\ Faults(car) < MaxFaults
+        /\ car.tp.fb \notin RepFlags => Faults(car) < SweepFaults
+Mut(d) == /\ phase = "carrier" /\ Room
           /\ car.tp[d] = DefTP[d]
           /\ \E v \in Alt(d) : car' = [car EXCEPT !.tp[d] = v]
           /\ UNCHANGED <<phase, sc, res, devUsed>>
@@ -165,7 +168,7 @@ MutFl    == Mut("fl")
 MutTail  == Mut("tail")
 MutSt    == Mut("st")
 MutCs    == Mut("cs")
-MutTs    == /\ phase = "carrier" /\ car.ts = "none"
+MutTs    == /\ phase = "carrier" /\ Room /\ car.ts = "none"
             /\ \E v \in CarTs \ {"none"} : car' = [car EXCEPT !.ts = v]
             /\ UNCHANGED <<phase, sc, res, devUsed>>
 
@@ -178,9 +181,10 @@ Next == \/ Inject \/ ExtractRT \/ Extract
 Spec == Init /\ [][Next]_vars
 
 \* CONSTRAINT: bound on the number of mutated dimensions
-Budget == phase = "carrier" =>
+InBudget == phase = "carrier" =>
             /\ Faults(car) <= MaxFaults
             /\ car.tp.fb \notin RepFlags => Faults(car) <= SweepFaults
+Budget == InBudget      \* (the CONSTRAINT; TLC -coverage cannot evaluate a constraint operator inside an invariant)
 
 (* ---------------- the property (C09), checked in every state -------------- *)
 Ideal == devUsed = {}
@@ -286,7 +290,8 @@ Render(tp) ==
                 [] tp.st = "cut"    -> LET w == v \o d \o t \o d \o s \o d \o f IN SubSeq(w, 1, IF Len(w) < 40 THEN Len(w) ELSE 40)
   IN WsToks(tp.lead) \o core \o WsToks(tp.trail)
 \* both formulations agree on every member of the partition
-Agree == (phase \in {"carrier", "injected"} /\ car.tp.p = "present") =>
+\* (TLC also evaluates invariants on the successors that CONSTRAINT Budget discards: skip those)
+Agree == (phase \in {"carrier", "injected"} /\ car.tp.p = "present" /\ InBudget) =>
             LET r == Parse(Render(car.tp))
                 o == Outcome(car) IN
               /\ r.o = o.o
